@@ -214,7 +214,41 @@ def m_vec_into_iter_ref(ex, st, callee, args, dest_ty):
     yield st, Opaque("SliceIter", info=(base, 0))
 
 
+def _hm_fill(ex, st, cell, items, k=0):
+    """inserts (key, value) tuples one after another into the map in `cell` (later equal keys replace earlier ones, as std does)"""
+    if k == len(items):
+        yield st
+        return
+    key, val = items[k].fields
+    for st2, _ in m_hm_insert(ex, st, "HashMap::insert", [Ref(cell), key, val], None):
+        yield from _hm_fill(ex, st2, cell, items, k + 1)
+
+
+def m_hm_collect(ex, st, callee, args, dest_ty):
+    """iterator.collect::<HashMap<String, V>>() / HashMap::from_iter: the pairs the (lazily pulled) iterator yields, inserted in order"""
+    import feelvals as fv
+    it = args[0] if isinstance(args[0], Opaque) else fv._sub_iter(ex, st, args[0])
+    for st2, items, fin in fv._drain(ex, st, it):
+        cell = ex.new_cell(st2, HMap(z3.IntVal(0), (), "kv"), "collected")
+        for st3 in _hm_fill(ex, st2, cell, items):
+            yield st3, ex.read(st3, cell, ())
+
+
+def m_hm_extend(ex, st, callee, args, dest_ty):
+    import feelvals as fv
+    base, m = _hm(ex, st, args[0])
+    it = args[1] if isinstance(args[1], Opaque) else fv._sub_iter(ex, st, args[1])
+    for st2, items, fin in fv._drain(ex, st, it):
+        for st3 in _hm_fill(ex, st2, base.cell if not base.projs else ex.new_cell(st2, m, "x"), items):
+            if base.projs:
+                raise MirUnsupported("extend of a map behind projections")
+            yield st3, UNIT
+
+
 MODELS = [
+    (re.compile(r" as Iterator>::collect::<(std::collections::)?HashMap<.*>>$|^<HashMap<.*> as FromIterator<.*>>::from_iter::<.*>$"), m_hm_collect),
+    (re.compile(r"^<HashMap<.*> as Extend<.*>>::extend::<.*>$"), m_hm_extend),
+    (re.compile(r"^HashMap::<.*>::new$|^<HashMap<.*> as Default>::default$"), lambda ex, st, c, a, d: iter([(st, HMap(z3.IntVal(0), (), "kv"))])),
     (re.compile(r"^HashMap::<.*>::contains_key::<.*>$"), m_hm_contains),
     (re.compile(r"^HashMap::<.*>::clear$"), m_hm_clear),
     (re.compile(r"^HashMap::<.*>::insert$"), m_hm_insert),
